@@ -106,6 +106,8 @@ class Ctx:
         self.raised = {}
         self.FC = FileComparison
         self.query_log = []   # (query, path, answer) for the view slice
+        self.contract = []    # C10 predicates that failed right after a build_file call
+        self.started_targets = {}  # targets whose function was entered (so a file there is ours to remove)
 
     def P(self, rel):
         return os.path.join(self.root, rel) if rel else self.root
@@ -158,6 +160,8 @@ def eval_cond(cond, acc):
         return False
     last = acc[-1]
     k = cond[0]
+    if k == 'arg':
+        return render(acc[0]) == render(['v', wire.dec(cond[1])])
     if k == 'err':
         return last[0] == 'e'
     if k == 'true':
@@ -178,7 +182,7 @@ def run_func(ctx, idx, b, target, arg, kw, is_root=False):
     if not is_root:
         ctx.inv.append([f['name'], ctx.rel(target) if target is not None else None,
                         wire.enc([arg]), wire.enc(kw)])
-    acc = [['v', arg], ['v', kw], ['v', canon(ctx.versions.get(f['name']))]]
+    acc = [['v', canon(arg)], ['v', canon(kw)], ['v', canon(ctx.versions.get(f['name']))]]
     exec_stmts(ctx, f['stmts'], b, target, acc)
     r = f['ret']
     if r == 'acc':
@@ -238,12 +242,27 @@ def exec_stmts(ctx, stmts, b, target, acc):
             name = ctx.funcs[callee]['name']
 
             def body(bb, fn, a, _j=callee, **kws):
+                ctx.started_targets[fn] = True
+                if os.path.lexists(fn):
+                    ctx.contract.append(['target-present-at-start', ctx.rel(fn)])
+                if fn != os.path.abspath(fn):
+                    ctx.contract.append(['path-not-normalised', fn])
                 return run_func(ctx, _j, bb, fn, a, kws)
+            tgt = ctx.P(rel)
             try:
                 r = b.build_file_with_comparison(
-                    ctx.P(rel), ctx.cmp(cmp_), name, body, dec_pyval(arg), **dec_pyval(kw))
+                    tgt, ctx.cmp(cmp_), name, body, dec_pyval(arg), **dec_pyval(kw))
+                # C10: on return the target is a regular file and all parents are directories
+                if not os.path.isfile(tgt) or not os.path.isdir(os.path.dirname(tgt)):
+                    ctx.contract.append(['returned-without-file', rel])
+                ctx.started_targets.pop(tgt, None)
                 acc.append(['v', r])
             except Exception as e:
+                # C10: after a failure of the function the target does not exist
+                st_ = getattr(e, '_fbh_phase', None)
+                if os.path.lexists(tgt) and not os.path.isdir(tgt) and ctx.started_targets.get(tgt):
+                    ctx.contract.append(['target-left-behind', rel, exc_cls(e)])
+                ctx.started_targets.pop(tgt, None)
                 if not catch:
                     raise
                 acc.append(['e', exc_cls(e)])
